@@ -1,13 +1,24 @@
 #!/bin/bash
-# usage: tools/seed_driver.sh <lane> <nlanes> <checks: own|all>   processes /tmp/seed/jobs.txt (lines "Cxx n")
+# usage: tools/seed_driver.sh <lane> <nlanes> <checks: own|all>   processes ${SEED_DIR:-/tmp/seed}/jobs.txt (lines "Cxx n")
 lane="$1"; nl="$2"; mode="$3"; i=0
 ALL="C01 C02 C03 C04 C05 C06 C07 C08 C09 C10 C11 C12 C13 C14 C15 C16 C17 C18 C19 C20"
 while read -r id n; do
   i=$((i+1)); [ $(( i % nl )) -ne $(( lane % nl )) ] && continue
-  out=/tmp/seed/results/$id-$n.txt
+  out=${SEED_DIR:-/tmp/seed}/results/$id-$n.txt
   [ -s "$out" ] && grep -q "^DONE" "$out" && continue
-  { echo "=== $id patch$n"; /verif/tools/confirm_seed.sh "$id" "$n" 2>&1 | tail -8
-    if [ "$mode" = all ]; then cs="$id $(echo $ALL | sed "s/$id//")"; else cs="$id"; fi
-    /verif/tools/lanes.sh run "$lane" "/tmp/seed/$id-out/patch$n.diff" "$id-$n" $cs 2>&1
+  { echo "=== $id patch$n"; SEED_DIR=${SEED_DIR:-/tmp/seed} /verif/tools/confirm_seed.sh "$id" "$n" 2>&1 | tail -8
+    if [ "$mode" = all ]; then cs="$id $(echo $ALL | sed "s/$id//")";
+    elif [ "$mode" = group ]; then
+      case "$id" in
+        C01|C02|C03|C20) g="C01 C02 C03 C13 C20";;
+        C04|C06|C07|C16) g="C04 C06 C07 C16 C13";;
+        C09|C10|C11|C14|C19) g="C09 C10 C11 C14 C19";;
+        C18|C12) g="C18 C12 C10";;
+        C13) g="C13 C07 C17";;
+        *) g="C05 C08 C15 C17 C13";;
+      esac
+      cs="$id $(echo $g | sed "s/$id//")"
+    else cs="$id"; fi
+    /verif/tools/lanes.sh run "$lane" "${SEED_DIR:-/tmp/seed}/$id-out/patch$n.diff" "$id-$n" $cs 2>&1
     echo "DONE"; } > "$out" 2>&1
-done < /tmp/seed/jobs.txt
+done < ${SEED_DIR:-/tmp/seed}/jobs.txt
